@@ -72,12 +72,19 @@ def fake_modules(host):
         setattr(errno_mod, v, k)
     signal_mod = types.ModuleType('signal')
     signal_mod.Signals = enum.IntEnum('Signals', {v: k for k, v in sm.items()})
+    # the other host-specific constants a decoder could reach for
+    signal_mod.NSIG = {'darwin': 32, 'sparse': 16}.get(host, 65)
+    signal_mod.SIGRTMIN, signal_mod.SIGRTMAX = (34, 64) if host != 'darwin' else (0, 0)
     for k, v in sm.items():
         setattr(signal_mod, v, signal_mod.Signals(k))
     socket_mod = types.ModuleType('socket')
     socket_mod.AddressFamily = enum.IntEnum('AddressFamily', {v: k for k, v in am.items()})
     socket_mod.SocketKind = enum.IntEnum('SocketKind', {v: k for k, v in km.items()})
     socket_mod.SOL_SOCKET = sol
+    if host != 'darwin':
+        socket_mod.SOCK_NONBLOCK, socket_mod.SOCK_CLOEXEC = (0x800, 0x80000) if host != 'sparse' else (0x4, 0x10000000)
+    socket_mod.AF_MAX = {'darwin': 41}.get(host, 46)
+    socket_mod.SOMAXCONN = {'darwin': 128}.get(host, 4096)
     for k, v in am.items():
         setattr(socket_mod, v, socket_mod.AddressFamily(k))
     for k, v in km.items():
